@@ -32,7 +32,7 @@ ASSUMPTIONS = [
     'optimizers needing absent libraries (polychord, dypolychord) and plugin components (ace, BHMie) cannot be discovered here and are not judged',
     'CLI differential: taurex.taurex.main() run in-process with -i -o -S on files the harness wrote (pickle cross-sections, pickle CIA); spectrum compared with the same components built through the library, rtol 1e-9',
 ]
-REQUIRED = {'part:sections': 0.2, 'part:cli': 0.08, 'part:selectors': 0.01, 'part:retrieval': 0.1, 'negative': 0.08}
+REQUIRED = {'part:sections': 0.2, 'part:cli': 0.08, 'part:selectors': 0.002, 'part:retrieval': 0.1, 'negative': 0.08}
 
 # family -> (ClassFactory attribute, rst file, {selector: class name})
 DOCUMENTED = {
